@@ -5,11 +5,7 @@ import Fdo.Prim.Hmac
 namespace Fdo.Drv.Cose
 open Fdo Fdo.Cbor Fdo.Cose
 
-/-- payload schema `P` out of the schema of `SignTag/Mac0Tag[P, A]` -/
-def payloadSchema : Schema → Option Schema
-  | .tagNum _ (.struct (.hdr (.cons (.ptr (.wrap p)) _ _))) => some p
-  | .tagNum _ (.struct (.hdr (.cons (.ptr .wrapBytes) _ _))) => some .bytes
-  | _ => none
+def payloadSchema := Fdo.Cose.payloadSchemaOf
 
 def natHex (n : Nat) : String := if n = 0 then "00" else toHex (natBE ((Nat.log2 n) / 8 + 1) n)
 
